@@ -163,34 +163,37 @@ def snaModel (f : Bytes) : Option Kind :=
 def AState.atBoundary (a : AState) : AState :=
   { a with halted := false, eiPending := false, midInstr := false }
 
+/-- consecutive 16 KiB pieces of the file, starting with piece `k` after offset `base`, become the
+listed pages in order -/
+def pagesFrom (f : Bytes) (base : Nat) : List Nat → Nat → AState → AState
+  | [], _, a => a
+  | p :: ps, k, a => pagesFrom f base ps (k + 1) (a.withPage p (chunk16 f k base))
+
 /-- What a well-formed SNA file says about the machine that loads it (`prev` supplies what the
-format does not carry: AY, mouse, and on the 128K nothing else). `none`: not well-formed. -/
+format does not carry: AY, mouse). `none`: not well-formed (wrong length, interrupt mode 3, a
+128K file whose length does not fit its latch, a 48K file whose stack pointer points into ROM). -/
 def describeSna (f : Bytes) (prev : AState) : Option AState :=
+  if (f.getD 25 0 &&& 3).toNat = 3 then none else
   match snaModel f with
   | none => none
   | some .k48 =>
     let g := snaRegs f 0
-    let a := { prev with model := .k48, border := f.getD 26 0 &&& 7, borderShown := f.getD 26 0 &&& 7 }
-    let a := (a.withPage 5 (chunk16 f 0 27)).withPage 2 (chunk16 f 1 27) |>.withPage 0 (chunk16 f 2 27)
-    -- PC is popped: the two bytes at SP
-    let a := { a with regs := g }
     -- a stack pointer into ROM leaves PC to the ROM contents: not described by the file
     if g.sp.toNat < 16384 ∨ (g.sp + 1).toNat < 16384 then none else
+    let a := { prev.atBoundary with model := .k48, border := f.getD 26 0 &&& 7, borderShown := f.getD 26 0 &&& 7 }
+    let a := pagesFrom f 27 [5, 2, 0] 0 a
+    -- PC is popped: the two bytes at SP
     let pc := w16 (a.peek g.sp.toNat) (a.peek (g.sp + 1).toNat)
-    some { a with regs := { g with pc := pc, sp := g.sp + 2 } }.atBoundary
+    some { a with regs := { g with pc := pc, sp := g.sp + 2 } }
   | some .k128 =>
     let latch := f.getD 49181 0
     let n := (latch &&& 7).toNat
     -- a duplicate third bank is only present when n is 2 or 5
     if (n = 2 ∨ n = 5) ≠ (f.length = 147487) then none else
     let g := snaRegs f (w16 (f.getD 49179 0) (f.getD 49180 0))
-    let a := { prev with model := .k128, regs := g, latch := latch, locked := latch &&& 0x20 != 0,
-                         border := f.getD 26 0 &&& 7, borderShown := f.getD 26 0 &&& 7 }
-    let a := (a.withPage 5 (chunk16 f 0 27)).withPage 2 (chunk16 f 1 27) |>.withPage n (chunk16 f 2 27)
-    let rec tail (a : AState) : List Nat → Nat → AState
-      | [], _ => a
-      | b :: bs, k => tail (a.withPage b (chunk16 f k 49183)) bs (k + 1)
-    some (tail a (snaTail n) 0).atBoundary
+    let a := { prev.atBoundary with model := .k128, regs := g, latch := latch, locked := latch &&& 0x20 != 0,
+                                    border := f.getD 26 0 &&& 7, borderShown := f.getD 26 0 &&& 7 }
+    some (pagesFrom f 49183 (snaTail n) 0 (pagesFrom f 27 [5, 2, n] 0 a))
 
 /-! ### SZX (zx-state) -/
 
